@@ -89,6 +89,15 @@ func genC18Spec(r *mrand.Rand, id string) gen.MsgSpec {
 	s := genSpec(r, id, gen.Pick(r, []string{"quoted-printable", "base64"}), np, ne, na)
 	s.Subject = headerText(r)
 	s.Extra = append(s.Extra, [2]string{"X-Verif-Text", headerText(r)})
+	if r.Intn(3) == 0 {
+		// a header the caller has folded itself (DKIM-Signature / List-Unsubscribe style): CRLF followed by SP or HT
+		s.Preformatted = append(s.Preformatted, [2]string{"X-Verif-Pre", gen.Pick(r, []string{
+			"one line, not folded",
+			"v=1; a=rsa-sha256; c=relaxed/relaxed;\r\n d=example.org; s=sel;\r\n\tbh=2jUSOH9NhtVGCQWNr9BrIAPreKQjO6Sn7XIkfJVOzv8=",
+			"<mailto:unsubscribe@example.org?subject=unsubscribe>,\r\n <https://example.org/unsubscribe/0123456789abcdef0123456789abcdef>",
+			"first\r\n second\r\n\tthird\r\n  fourth with two blanks",
+		})})
+	}
 	s.From = gen.AddrSpec{Name: gen.Pick(r, []string{"", "Short Name", "Jürgen Müller", strings.Repeat("Long Display Name ", 5) + "End", strings.Repeat("x", 90)}), Addr: "sender@example.com"}
 	s.To = nil
 	for i := 0; i < 1+r.Intn(4); i++ {
@@ -233,6 +242,10 @@ func checkLineDiscipline(s *gen.MsgSpec, out []byte, viol func(key, what string,
 			chk(h[0], h[1])
 		}
 	}
+	for _, h := range s.Preformatted {
+		// what was set, with the caller's own folds taken out
+		chk(h[0], strings.NewReplacer("\r\n ", " ", "\r\n\t", "\t").Replace(h[1]))
+	}
 	// display names
 	chkAddr := func(field string, want []gen.AddrSpec) {
 		got := root.Get(field)
@@ -298,7 +311,7 @@ func runC18Case(r *ev.Run, c c18Case) {
 
 func runC18(r *ev.Run, rep *ev.ReplayDoc) ev.Summary {
 	sum := ev.Summary{
-		Rule: "seeded messages: header values from words of length 0-300 with single/multiple/leading/trailing blanks, non-ASCII words (Q and B encoders), long display names and domains; QP/base64 parts and files with contents around the 57/76-byte wrapping points, emitted by producers in chunks of {all,1,2,3,5,7,11,13,56,57,58,75,76,77,100,1000} bytes; a share is S/MIME signed. Oracle scans every physical line of every header section and every encoded body of the raw output. non-trivial = every case (all have long/folded headers or wrapped bodies); distinct by (shape, subject length)",
+		Rule: "(generic headers also pre-folded by the caller and set through SetGenHeaderPreformatted) seeded messages: header values from words of length 0-300 with single/multiple/leading/trailing blanks, non-ASCII words (Q and B encoders), long display names and domains; QP/base64 parts and files with contents around the 57/76-byte wrapping points, emitted by producers in chunks of {all,1,2,3,5,7,11,13,56,57,58,75,76,77,100,1000} bytes; a share is S/MIME signed. Oracle scans every physical line of every header section and every encoded body of the raw output. non-trivial = every case (all have long/folded headers or wrapped bodies); distinct by (shape, subject length)",
 		Assumptions: []string{
 			"a header line longer than 78 characters is allowed only if (after its leading fold blank) it contains no blank, as the property states",
 			"unfolded values are compared after RFC 2047 decoding and trimming of leading/trailing blanks; blank runs inside the value must survive exactly",
